@@ -17,6 +17,7 @@ import (
 	"math/rand"
 	"os"
 	"reflect"
+	"strings"
 	"sync"
 
 	"github.com/nlnwa/whatwg-url/canonicalizer"
@@ -197,6 +198,22 @@ func cmdConc(args []string) int {
 
 	// ---- 2. concurrent runs, results compared with the sequential run ----
 	tables0 := url.VerifTables()
+	// package-level tables belong to the package: neither another package's initialisation (the canonicalizer builds its profiles at
+	// init time) nor the construction of a parser with its own special-scheme table or percent-encode sets may write them
+	const stdSpecial = "file=;ftp=21;http=80;https=443;ws=80;wss=443;"
+	if !strings.HasSuffix(tables0, stdSpecial) || strings.Count(tables0, "=") != 6 {
+		fmt.Println("CONC-TABLES-CHANGED the default special-scheme table is not the standard's before any call: " + tables0[strings.LastIndex(tables0, ":")+1:])
+		bad++
+	}
+	_ = url.NewParser(url.WithSpecialSchemes(map[string]string{"zzz": "1", "http": "81", "file": ""}),
+		url.WithPathPercentEncodeSet(url.PathPercentEncodeSet.Set('!')), url.WithQueryPercentEncodeSet(url.QueryPercentEncodeSet.Clear('"')),
+		url.WithSpecialQueryPercentEncodeSet(url.SpecialQueryPercentEncodeSet.Set('!')), url.WithFragmentPathPercentEncodeSet(url.FragmentPercentEncodeSet.Set('!')),
+		url.WithSpecialFragmentPathPercentEncodeSet(url.FragmentPercentEncodeSet.Clear('`')))
+	_ = canonicalizer.New(url.WithSpecialSchemes(map[string]string{"yyy": "2"}), canonicalizer.WithDefaultScheme("http"))
+	if url.VerifTables() != tables0 {
+		fmt.Println("CONC-TABLES-CHANGED constructing a parser with its own tables wrote a package-level table")
+		bad++
+	}
 	for round := 0; round < *rounds; round++ {
 		np := parsers[round%len(parsers)]
 		bs := concBases[rnd.Intn(len(concBases))]
